@@ -442,7 +442,22 @@ def build_doc(fmt, case):
     return {"data": data, "ext": "doc", "expect": expect}
 
 
+def _jpeg_mod16(w, h, residue):
+    """the same JPEG with a COM segment sized so that len(file) % 16 == residue (block-aligned streams end in a full padding block)"""
+    base = _jpeg(w, h)
+    for pad in range(0, 16):
+        com = b"\xff\xfe" + struct.pack(">H", 2 + 2 + pad) + b"vf" + b"." * pad
+        out = base[:2] + com + base[2:]
+        if len(out) % 16 == residue:
+            return out
+    raise AssertionError("unreachable")
+
+
 def pdf_doc(tk, d):
+    if d == 3:
+        # image streams (DCT: passed through unfiltered) whose lengths are 0 and 15 modulo the AES block size
+        doc = ["doc", {"title": tk.new("Z")}, [["unit", [["p", [["t", tk.new("B")]]], ["img", "j0"]], {}], ["unit", [["img", "j15"], ["p", [["t", tk.new("B")]]]], {}]]]
+        return doc, {"j0": (_jpeg_mod16(16, 8, 0), "jpeg"), "j15": (_jpeg_mod16(8, 8, 15), "jpeg")}
     if d != 2:
         return text_doc(tk, d), None
     doc = ["doc", {"title": tk.new("Z"), "author": tk.new("Z")}, [["unit", [["p", [["t", tk.new("B")]]], ["img", "j"], ["p", [["t", tk.new("B")], ["br"], ["t", tk.new("B")]]]], {}],
@@ -865,6 +880,7 @@ def base_cases(tier):
         for user, owner in PWS:
             for d in (0, 1, 2):
                 yield "pdf", {"k": "enc", "alg": alg, "user": user, "owner": owner, "doc": d, "state": "inproc"}, all_seams
+        yield "pdf", {"k": "enc", "alg": alg, "user": "", "owner": "", "doc": 3, "state": "inproc"}, ["direct"]
     for alg in PDF_AES:
         r6 = alg == "AES-256"
         for user, owner in PWS:
@@ -877,6 +893,9 @@ def base_cases(tier):
                     else:
                         seams = all_seams if state == "fresh" else ["direct"]
                     yield "pdf", {"k": "enc", "alg": alg, "user": user, "owner": owner, "doc": d, "state": state}, seams
+    for alg in PDF_AES:
+        if not (q and alg == "AES-256"):
+            yield "pdf", {"k": "enc", "alg": alg, "user": "", "owner": "", "doc": 3, "state": "fresh"}, ["direct"]
     # ---- ZIP
     maxn = 3
     for nmem in range(1, maxn + 1):
